@@ -18,7 +18,7 @@ NOTES = {
     "C17-m7": "missed as the checks stood: caught after one File object was carried through read / write / read",
     "C18-m7": "missed as the checks stood (trees <= 4 deep): caught after the deep directory chain was added",
     "C20-m7": "missed as the checks stood (needs pthread_create to fail): caught after EAGAIN fault injection + moved-from canary were added",
-    "C08-m7": "same root cause as C07-m7 (found independently by two agents): caught by C07 (LOST_TASK), the group-mate of C08",
+    "C08-m7": "same root cause as C07-m7 (found independently by two agents): as the checks stood caught by C07 only (LOST_TASK); tasks lost after a restart are now attributed to C08 as well",
     "C02-m8": "caught through the assertion in unlock() (class owned by C01); C02's own deadlock needs the assertion compiled out",
     "C14-m8": "missed as the checks stood: caught after initializer lists were read twice",
     "C19-m8": "missed as the checks stood (one get() per process): caught after the call history of 5 and long resolvable names were added",
